@@ -96,7 +96,11 @@ class Program:
                 continue
             if p in inv:
                 continue        # a function the recognisers were confirmed against as a unit
-            if it.get("impl_trait") or self.is_expansion(p) or p in keep or p in rec:
+            # (a function outside the inventory cannot be an anchor the recognisers were confirmed against, even when an
+            # enumeration - "all inherent methods of Pointer" - looked it up: it is unfolded like any other helper)
+            if it.get("impl_trait") or self.is_expansion(p) or p in rec:
+                continue
+            if p in keep and inv and p in inv:
                 continue
             if "::tests::" in p or p.endswith("::main"):
                 continue
